@@ -39,9 +39,10 @@ const (
 	batchCrashProcess
 	batchCrashPower
 	batchIsolation
+	batchWriters
 )
 
-var batchNames = [...]string{"refine", "ioerr", "crash_process", "crash_powerloss", "isolation"}
+var batchNames = [...]string{"refine", "ioerr", "crash_process", "crash_powerloss", "isolation", "writers"}
 
 func run(r *simkit.Run) {
 	rand.Seed(int64(r.Seed))
@@ -71,7 +72,7 @@ func run(r *simkit.Run) {
 	time.Sleep(time.Duration(20*365+r.C.Intn(2000, "epoch-days")) * 24 * time.Hour)
 	r.MarkEpoch()
 
-	batch := simkit.Pick(r.C, "batch", 4, 4, 3, 3, 2)
+	batch := simkit.Pick(r.C, "batch", 8, 8, 6, 6, 4, 1)
 	if v := os.Getenv("STORESIM_BATCH"); v != "" { // debugging aid only
 		batch = int(v[0] - '0')
 	}
@@ -79,6 +80,10 @@ func run(r *simkit.Run) {
 	r.Sig("batch:" + batchNames[batch])
 	if batch == batchIsolation {
 		runIsolation(r)
+		return
+	}
+	if batch == batchWriters {
+		runWriters(r)
 		return
 	}
 
